@@ -69,6 +69,8 @@ func C14(c *Ctx) {
 	c.R.Rule("C14-R3", "E5", "breadth-first FIFO queue; each recipient walked once", 3)
 	c.R.Rule("C14-R5", "E3+E1", "every emitted message is fed back once and reported once, in batches private to one machine (= C08-R5)", 3)
 	c.R.Rule("C14-R6", "E3", "one machine's failure does not discard what the others emitted", 1)
+	c.R.Rule("C14-R7", "E1", "Walk never writes the batch it is given: every recipient of a broadcast is offered the same messages", 1)
+	c.batchUntouched("C14-R7")
 	c14RunMachines(c)
 	crewEmitted(c, "C14-R5")
 	c.R.Rule("C14-R4", "E3", "mcrew fan-out once per emitted message", 1)
